@@ -388,7 +388,11 @@ func TestC01(t *testing.T) {
 	// (inner shape x key placement) combinations by behaviour index and seed, so that one
 	// run reaches every container encoding pairing instead of the same four profiles
 	var all []profSel
-	if !behav.Thorough() && family != "shiftflip" {
+	perBeh := 4
+	if behav.Thorough() {
+		perBeh = 6 // thorough: the large families also rotate (6 of 36 profiles per behaviour)
+	}
+	if (!behav.Thorough() || family == "binary" || family == "nary") && family != "shiftflip" {
 		for _, in := range []string{"edge", "array", "thresh", "comb", "runs", "runthresh", "longruns", "full", "mixed"} {
 			for _, ks := range gamma.KeySets {
 				all = append(all, profSel{inner: in, keyset: ks})
@@ -399,8 +403,8 @@ func TestC01(t *testing.T) {
 		use := profs
 		if all != nil {
 			use = nil
-			for k := 0; k < 4; k++ {
-				use = append(use, all[(bi*5+k*9+int(seed)*3)%len(all)])
+			for k := 0; k < perBeh; k++ {
+				use = append(use, all[(bi*5+k*7+int(seed)*3)%len(all)])
 			}
 		}
 		for _, ps := range use {
